@@ -76,12 +76,14 @@ def run(ctx):
         runs.append((["mt", 1 + r % 6, ctx.seed * 100 + r, ctx.scale(150, 1500)], "LOST", "concurrent_monitor::wait / notify_all with real threads and sleep_nodes, flag set before notify"))
     for r in range(ctx.scale(2, 20)):
         runs.append((["enq", [2, 4, 16][r % 3], ctx.scale(40, 400)], "NOTRUN", "task_arena::enqueue into an arena in which nobody waits"))
-    ctx.rules.append("monitor-mt / arena-enqueue (oracle only): real threads; every waiter returns (watchdog), every enqueued task runs within 2 s without any waiting call")
+    for r in range(ctx.scale(6, 60)):
+        runs.append((["bq", 1 + r % 3, 1 + r % 2, 2 + r % 2, ctx.seed * 100 + r], "BADITEMS", "concurrent_bounded_queue: blocked pushes, abort() (holes), later blocked pushes, pops: every producer must be woken when its slot is free"))
+    ctx.rules.append("monitor-mt / arena-enqueue / bounded-queue wake-up (oracle only): real threads; every waiter returns (watchdog), every enqueued task runs within 2 s without any waiting call")
     for args, key, what in runs:
         rc, lines, err = ctx.run_driver(exe, args, timeout=300)
         ctx.count(("c02-mt", tuple(args)), True, "mt %s" % args[0])
         t = (lines or ["no output"])[-1].split()
-        if rc != 0 or len(t) < 2 or t[0] != key or t[1] != "0":
+        if rc != 0 or len(t) < 2 or t[0] != key or any(x != "0" for x in t[1::2]):
             bad += 1
             ctx.add(Finding("violation", "c02-" + args[0], "%s (%s): %s rc=%s" % (what, " ".join(map(str, args)), " ".join(t), rc), {"tie": "c02-mt", "args": args}))
             if bad >= 3:
